@@ -142,19 +142,20 @@ def _labels(entry):
     return entry[1:] if isinstance(entry, tuple) else (entry,)
 
 
-def block_key(c, rec):
-    """Gate-level structure of a recorded block, independent of labels."""
+def block_key(c, rec, ident=None):
+    """Gate-level structure of a recorded block, independent of labels (`ident`: labels to be identified)."""
+    ident = ident or {}
     pos = {}
     for w, e in rec.ins:
         for l in _labels(e):
-            pos.setdefault(l, len(pos))
+            pos.setdefault(ident.get(l, l), len(pos))
     for l in rec.cuts:
-        pos.setdefault(l, len(pos))
+        pos.setdefault(ident.get(l, l), len(pos))
     ids, items = {}, []
 
     def visit(l):
-        if l in pos:
-            return ("in", pos[l])
+        if ident.get(l, l) in pos:
+            return ("in", pos[ident.get(l, l)])
         if l in ids:
             return ("g", ids[l])
         g = c.gates[l]
@@ -164,7 +165,7 @@ def block_key(c, rec):
         return ("g", ids[l])
 
     outs = tuple((lev, tuple(visit(l) for l in _labels(e))) for lev, e in rec.outs)
-    return (rec.name, tuple((w, tuple(pos[l] for l in _labels(e))) for w, e in rec.ins), tuple(items), outs)
+    return (rec.name, tuple((w, tuple(pos[ident.get(l, l)] for l in _labels(e))) for w, e in rec.ins), tuple(items), outs)
 
 
 def check_block(p, c, rec, timeout_ms):
@@ -188,14 +189,16 @@ def check_block(p, c, rec, timeout_ms):
     return r
 
 
-def run_generator(kind, mode, n, m, big_endian, deep=False):
+def run_generator(kind, mode, n, m, big_endian, deep=False, fn=None):
     from checks import c08
 
     c = Circuit.bare_circuit(n + (m if kind == "mul" else 0), prefix="in")
     a = list(c.inputs)[:n]
     b = list(c.inputs)[n:] if kind == "mul" else a
     with LinRecorder(deep=deep) as rec:
-        if kind == "mul":
+        if fn is not None:
+            res = fn(c, a, b) if kind == "mul" else fn(c, a)
+        elif kind == "mul":
             res = c08._invoke(dict(kind="mul", mode=mode, big_endian=big_endian), c, [a, b])
         else:
             res = c08._invoke(dict(kind="square", mode=mode, big_endian=big_endian), c, [a])
@@ -250,8 +253,15 @@ class LinSystem:
             out |= {e for _, e in r.outs if not isinstance(e, tuple) and e not in own}
         return out
 
+    def resolve(self, e):
+        while isinstance(e, tuple) and e in self.rec.alias:
+            e = self.rec.alias[e]
+        return e
+
     def consumed_plain(self):
-        return [e for r in self.rec.records for _, e in r.ins if not isinstance(e, tuple)] + [b for b in self.rec.alias.values()]
+        """Real gates read by the recorded blocks: directly, or as the second bit of a pair formed from two gates."""
+        ins = [self.resolve(e) for r in self.rec.records for _, e in r.ins]
+        return [e for e in ins if not isinstance(e, tuple)]
 
     def value(self, e):
         if isinstance(e, tuple) and e in self.rec.alias:
@@ -266,11 +276,25 @@ class LinSystem:
             self.cons.append(z3.Sum([self.value(e) * (1 << lev) for lev, e in r.outs]) == z3.Sum([self.value(e) * (1 << w) for w, e in r.ins]))
 
 
-def conservation(p, kind, mode, n, m, big_endian=False, block_timeout_ms=120000, lin_timeout_ms=600000, deep=False):
+class RecordSlice:
+    """The part of a recording that belongs to one call (records r0:r1, pair gates g0:g1)."""
+
+    def __init__(self, recorder, r0, r1, g0, g1):
+        self.records, self.pair_gates, self.alias = recorder.records[r0:r1], recorder.pair_gates[g0:g1], recorder.alias
+
+
+def conservation(p, kind, mode, n, m, big_endian=False, block_timeout_ms=120000, lin_timeout_ms=600000, deep=False, fn=None, keep=None):
     """Returns (problems, stats, witness) -- witness = (a_value, b_value) when L2 produced a model."""
-    c, a, b, res, recorder = run_generator(kind, mode, n, m, big_endian, deep=deep)
+    c, a, b, res, recorder = run_generator(kind, mode, n, m, big_endian, deep=deep, fn=fn)
+    if keep is not None:
+        keep.update(c=c, a=a, b=b, res=res)
+    return conservation_core(p, c, a, b, res, recorder, kind != "mul", block_timeout_ms, lin_timeout_ms)
+
+
+def conservation_core(p, c, a, b, res, recorder, square, block_timeout_ms=120000, lin_timeout_ms=600000):
+    """The argument itself, for a product computed inside circuit `c` from operand labels a, b (cut points)."""
     records = recorder.records
-    square = kind != "mul"
+    n, m = len(a), len(b)
     N = len(res)
     probs, stats = [], {"blocks": len(records), "block_classes": 0, "products": 0, "result_bits": N, "gates": len(c.gates)}
     if not records and N and max(n, m) > 1 and min(n, m) > 1:
@@ -366,8 +390,10 @@ def conservation(p, kind, mode, n, m, big_endian=False, block_timeout_ms=120000,
             balance[l] = balance.get(l, 0) - 1
     for l in res:
         balance[l] = balance.get(l, 0) - 1
-    for l in recorder.alias.values():
-        balance[l] = balance.get(l, 0) - 1
+    for rec in records:
+        for _, e in rec.ins:
+            if isinstance(e, tuple) and not isinstance(sys_.resolve(e), tuple):
+                balance[sys_.resolve(e)] = balance.get(sys_.resolve(e), 0) - 1
     absw = _absolute_weights(records, val, Pint, Aint, square)
     high = [(l, k) for l, k in balance.items() if k > 0 and l in produced and absw.get(l, -1) >= N]
     stats["left_over_high_carries"] = len(high)
